@@ -193,6 +193,18 @@ def key_mod3(x):
     return leafsum(x) % 3
 
 
+def viadict(x):
+    """map(viadict-wrapping).pluck(key): the element is wrapped into a dict {0: .., 1: .., (0, 1):
+    x, 'v': x} and picked out again with a key that is a tuple / a string (a single key, not a
+    list of indices).  Seen from outside the pair is the identity; applied to an observed
+    arrival at the pluck node (the dict) it is the pick."""
+    return x[(0, 1)] if isinstance(x, dict) else x
+
+
+def todict(x):
+    return {0: "zero", 1: "one", (0, 1): x, "v": x}
+
+
 def idx0(x):
     """what a non-callable key 0 means: x[0]"""
     return x[0]
@@ -200,7 +212,7 @@ def idx0(x):
 
 FUNCS = {f.__name__: f for f in (inc, dbl, neg, pair, tsum, size, wrap, add2, cnt, poly, is_even, lt3,
                                  acc_add, acc_max, acc_count, acc_rs, key_self, key_mod2,
-                                 key_mod3, idx0)}
+                                 key_mod3, idx0, viadict)}
 
 
 class Boom(Exception):
